@@ -20,38 +20,38 @@ import (
 
 // Link describes the faults of one direction between two hosts.
 type Link struct {
-	DropPermille  int
-	DupPermille   int
-	DelayMin      time.Duration
-	DelayMax      time.Duration
-	LatePermille  int           // extra-late delivery (beyond resend intervals)
-	LateExtra     time.Duration // how late at most
+	DropPermille     int
+	DupPermille      int
+	DelayMin         time.Duration
+	DelayMax         time.Duration
+	LatePermille     int           // extra-late delivery (beyond resend intervals)
+	LateExtra        time.Duration // how late at most
 	WriteErrPermille int
 }
 
 // Config of the fabric.
 type Config struct {
-	Default   Link
-	Links     map[string]Link // "srcIP>dstIP"
-	RcvBuf    int             // datagrams per socket buffer (0 = 256)
-	TCPCut    bool            // reads return decision-chosen prefixes
+	Default          Link
+	Links            map[string]Link // "srcIP>dstIP"
+	RcvBuf           int             // datagrams per socket buffer (0 = 256)
+	TCPCut           bool            // reads return decision-chosen prefixes
 	TCPCoalesceDelay time.Duration
-	LocalIP   string // default host of library-created sockets
+	LocalIP          string // default host of library-created sockets
 }
 
 // Rec is one entry of the wire log.
 type Rec struct {
-	Seq    uint64 // global event sequence number
-	T      time.Duration
-	Kind   string // "send", "drop", "werr", "arrive", "read", "overflow", "filtered", "tcpwrite", "tcpread"
-	Src    string
-	Dst    string
-	Data   []byte
-	Ref    uint64 // for arrive/read: Seq of the send
-	Sock   string // label of the socket concerned
-	Copy   int
-	Err    string
-	Task   int // task that performed the operation (-1: the driver, e.g. a timer callback)
+	Seq  uint64 // global event sequence number
+	T    time.Duration
+	Kind string // "send", "drop", "werr", "arrive", "read", "overflow", "filtered", "tcpwrite", "tcpread"
+	Src  string
+	Dst  string
+	Data []byte
+	Ref  uint64 // for arrive/read: Seq of the send
+	Sock string // label of the socket concerned
+	Copy int
+	Err  string
+	Task int // task that performed the operation (-1: the driver, e.g. a timer callback)
 }
 
 // Fabric is the simulated network of one run.
@@ -159,6 +159,19 @@ func (f *Fabric) Records() []Rec {
 	f.mu.Lock()
 	defer f.mu.Unlock()
 	return append([]Rec(nil), f.Log...)
+}
+
+// LibUDPConns returns the open UDP sockets created by library code.
+func (f *Fabric) LibUDPConns() []*UDPConn {
+	f.mu.Lock()
+	defer f.mu.Unlock()
+	var out []*UDPConn
+	for _, c := range f.socks {
+		if c.Lib && !c.closed {
+			out = append(out, c)
+		}
+	}
+	return out
 }
 
 // OpenSockets lists the labels of sockets and connections that are still open.
@@ -284,7 +297,7 @@ func (f *Fabric) ListenUDPOn(host string, port int) *UDPConn {
 	return c
 }
 
-func (c *UDPConn) LocalAddr() net.Addr  { return c.local }
+func (c *UDPConn) LocalAddr() net.Addr { return c.local }
 func (c *UDPConn) RemoteAddr() net.Addr {
 	if c.remote == nil {
 		return nil
@@ -679,18 +692,19 @@ func (l *TCPListener) Close() {
 
 // TCPConn is one end of a simulated TCP connection.
 type TCPConn struct {
-	f       *Fabric
-	Label   string
-	local   *net.TCPAddr
-	remote  *net.TCPAddr
-	peer    *TCPConn
-	rx      []byte
-	rxEOF   bool
-	rxErr   error
-	closed  bool
-	readers []*simrt.Task
-	lastArr time.Duration // arrival time of the last scheduled segment towards the peer (keeps order)
-	Lib     bool
+	f        *Fabric
+	Label    string
+	local    *net.TCPAddr
+	remote   *net.TCPAddr
+	peer     *TCPConn
+	rx       []byte
+	rxEOF    bool
+	rxErr    error
+	closed   bool
+	readers  []*simrt.Task
+	lastArr  time.Duration // arrival time of the last scheduled segment towards the peer (keeps order)
+	inFlight [][]byte      // segments (nil = FIN) on their way to the peer, in stream order
+	Lib      bool
 	// Segments, when non-nil, is consulted by the sender side of a harness connection to cut
 	// its writes: it returns the sizes of the segments the next write is split into.
 	Cutter func(n int) []int
@@ -845,21 +859,43 @@ func (c *TCPConn) Write(b []byte) (int, error) {
 		}
 		c.lastArr = arr
 		f.mu.Unlock()
-		f.s.At(arr-now, "tcpseg>"+peer.Label, func() {
-			f.mu.Lock()
-			if peer.closed || peer.rxErr != nil {
-				f.mu.Unlock()
-				return
-			}
-			peer.rx = append(peer.rx, seg...)
-			f.mu.Unlock()
-			f.s.Logf("net tcparrive %s %x", peer.Label, seg)
-			f.mu.Lock()
-			peer.wakeReaders()
-			f.mu.Unlock()
-		})
+		f.mu.Lock()
+		c.inFlight = append(c.inFlight, seg)
+		f.mu.Unlock()
+		f.s.At(arr-now, "tcpseg>"+peer.Label, func() { c.arriveNext() })
 	}
 	return len(b), nil
+}
+
+// arriveNext delivers the oldest segment in flight to the peer. Arrival events of one direction
+// are scheduled at non-decreasing times; which of several same-instant events fires first is a
+// scheduler decision, so each event delivers the head of the queue: a byte stream never reorders.
+func (c *TCPConn) arriveNext() {
+	f := c.f
+	peer := c.peer
+	f.mu.Lock()
+	if len(c.inFlight) == 0 {
+		f.mu.Unlock()
+		return
+	}
+	seg := c.inFlight[0]
+	c.inFlight = c.inFlight[1:]
+	if seg == nil {
+		peer.rxEOF = true
+		peer.wakeReaders()
+		f.mu.Unlock()
+		return
+	}
+	if peer.closed || peer.rxErr != nil {
+		f.mu.Unlock()
+		return
+	}
+	peer.rx = append(peer.rx, seg...)
+	f.mu.Unlock()
+	f.s.Logf("net tcparrive %s %x", peer.Label, seg)
+	f.mu.Lock()
+	peer.wakeReaders()
+	f.mu.Unlock()
 }
 
 // Close replaces (*net.TCPConn).Close: the peer reads EOF after the data in flight.
@@ -880,12 +916,10 @@ func (c *TCPConn) Close() error {
 	}
 	f.mu.Unlock()
 	f.s.Logf("net close %s", c.Label)
-	f.s.At(d, "tcpfin>"+peer.Label, func() {
-		f.mu.Lock()
-		peer.rxEOF = true
-		peer.wakeReaders()
-		f.mu.Unlock()
-	})
+	f.mu.Lock()
+	c.inFlight = append(c.inFlight, nil)
+	f.mu.Unlock()
+	f.s.At(d, "tcpfin>"+peer.Label, func() { c.arriveNext() })
 	return nil
 }
 
